@@ -340,6 +340,30 @@ func genSpec(rng *rand.Rand, idx int) spec {
 	return sp
 }
 
+// genStress generates histories aimed at one window: Add/ExecuteAt racing with Shutdown.
+// 2-4 clients add due elements back to back (no pauses, no gates) and client 0 calls
+// Shutdown somewhere in between; nothing waits for a timer, so thousands of such runs are cheap.
+func genStress(rng *rand.Rand, idx int) spec {
+	sp := spec{Index: idx, Kind: []string{kQueue, kExec, kTask}[rng.Intn(3)], Workers: 1 + rng.Intn(4), ShutdownMode: 2}
+	if rng.Intn(4) == 0 {
+		sp.Flags = []int{fIgnore, fDontWait, fPanic}[rng.Intn(3)]
+		if sp.Kind == kQueue {
+			sp.Flags &^= fDontWait
+		}
+	}
+	nClients := 2 + rng.Intn(3)
+	sp.Clients = make([][]opSpec, nClients)
+	for ci := range sp.Clients {
+		n := 3 + rng.Intn(5)
+		for j := 0; j < n; j++ {
+			sp.Clients[ci] = append(sp.Clients[ci], opSpec{T: "add", Item: sp.NItems, ID: 1 + sp.NItems, OffUs: int64(rng.Intn(400)) - 300})
+			sp.NItems++
+		}
+	}
+	sp.ShutdownAt = rng.Intn(len(sp.Clients[0]))
+	return sp
+}
+
 func (r *run) client(ci int, ops []opSpec) {
 	defer r.clientsWG.Done()
 	for j, op := range ops {
